@@ -1065,7 +1065,7 @@ func TestVerifC33(t *testing.T) {
 			v = uint64(LogicVersion - r.Intn(3))
 		}
 		var p *vC33Prog
-		if r.Intn(3) == 0 {
+		if r.Intn(2) == 0 {
 			p = vC33GenTyped(r, v, st)
 		} else {
 			p = vC33GenFree(r, v, st)
